@@ -230,6 +230,15 @@ func (s *Sched) Now() time.Duration { return time.Since(s.start) }
 // Threads returns the registered threads (valid at quiescence).
 func (s *Sched) Threads() []*Thread { return s.threads }
 
+// Poke wakes the scheduler if it is waiting for time to pass (used by
+// environment timers, e.g. a packet that becomes deliverable).
+func (s *Sched) Poke() {
+	select {
+	case s.arrive <- struct{}{}:
+	default:
+	}
+}
+
 // Stop ends the execution at the next quiescent state.
 func (s *Sched) Stop() { s.stop = true }
 
@@ -444,7 +453,10 @@ func fnv(h uint64, s string) uint64 {
 }
 
 func (s *Sched) note(line string) {
-	s.hash = fnv(s.hash, line)
+	if !s.free.Load() {
+		// the drain phase runs free and is not part of the schedule
+		s.hash = fnv(s.hash, line)
+	}
 	if s.cfg.Trace {
 		s.exec.Trace = append(s.exec.Trace, fmt.Sprintf("[%9.3fs] %s", s.Now().Seconds(), line))
 	}
@@ -610,9 +622,14 @@ func (s *Sched) loop() {
 				pendingDeliver = true
 			}
 		}
-		if !(s.cfg.NoStarve && len(par) > 0) {
+		isDelay := len(par) == 0 && pendingDeliver
+		delayOK := true
+		if d, ok := s.env.(interface{ DelayAllowed() bool }); ok && isDelay {
+			delayOK = d.DelayAllowed()
+		}
+		if !(s.cfg.NoStarve && len(par) > 0) && delayOK {
 			k := KTime
-			if len(par) == 0 && pendingDeliver {
+			if isDelay {
 				// delaying a deliverable packet past the
 				// next timer is a transport fault
 				k = KFault
@@ -688,6 +705,11 @@ func (s *Sched) loop() {
 				time.Sleep(q)
 				continue
 			}
+			if isDelay {
+				if d, ok := s.env.(interface{ OnDelay() }); ok {
+					d.OnDelay()
+				}
+			}
 			s.note("advance-time")
 			// Block until a thread parks or finishes after a timer
 			// fired, or the horizon passes.
@@ -709,6 +731,9 @@ func (s *Sched) loop() {
 // can finish does. What is still alive afterwards is reported.
 func (s *Sched) finish() {
 	x := s.exec
+	if b, ok := s.env.(interface{ BeforeDrain(s *Sched) }); ok {
+		b.BeforeDrain(s)
+	}
 	s.free.Store(true)
 	for _, t := range s.threads {
 		if t.state.Load() == stParked {
